@@ -25,6 +25,8 @@ duckdb_to_sf_type = {
     "DATE": "date",
     "DECIMAL": "fixed",
     "DOUBLE": "real",
+    # sum() and count_if() of integers are 128 bit in duckdb
+    "HUGEINT": "fixed",
     "INTEGER": "fixed",
     "JSON": "variant",
     "TIME": "time",
